@@ -211,6 +211,8 @@ counted_array!(pub static ARGS: [ArgInfo<ArgData>; _] = [
     flag!("-P", TooHardFlag),
     take_arg!("-U", OsString, CanBeSeparated, PassThrough),
     take_arg!("-V", OsString, Separated, PassThrough),
+    take_arg!("-Wa,--MD", OsString, Concatenated, TooHard),
+    take_arg!("-Wa,-a", OsString, Concatenated, TooHard),
     flag!("-Werror=pedantic", PedanticFlag),
     take_arg!("-Wp", OsString, Concatenated(','), PreprocessorArgument),
     flag!("-Wpedantic", PedanticFlag),
@@ -228,9 +230,11 @@ counted_array!(pub static ARGS: [ArgInfo<ArgData>; _] = [
     flag!("-fno-profile-generate", TooHardFlag),
     flag!("-fno-profile-use", TooHardFlag),
     flag!("-fno-working-directory", PreprocessorArgumentFlag),
+    take_arg!("-fopt-info", OsString, Concatenated, TooHard),
     flag!("-fplugin=libcc1plugin", TooHardFlag),
     flag!("-fprofile-arcs", ProfileGenerate),
     flag!("-fprofile-generate", ProfileGenerate),
+    take_arg!("-fprofile-note", OsString, Concatenated, TooHard),
     take_arg!("-fprofile-use", OsString, Concatenated, TooHard),
     flag!("-frepo", TooHardFlag),
     take_arg!("-fsave-optimization-record", OsString, Concatenated, TooHard),
